@@ -52,15 +52,29 @@ Qed.
 
 (** ** 3. Distinct ids give distinct target files *)
 
-Lemma sprintf_v_shape : forall fmt id r, sprintf_v fmt id = Some r ->
+Lemma sprintf_v_shape_n : forall n fmt id r, (len fmt <= n)%nat -> sprintf_v fmt id = Some r ->
   exists pre suf, (forall id', sprintf_v fmt id' = Some (pre ++ dec id' ++ suf)).
 Proof.
-  intros fmt id r H. unfold sprintf_v in *.
-  destruct (negb (Nat.eqb (count_char percent fmt) 1)); [discriminate|].
-  destruct (drop_until percent fmt) as [|c0 [|v rest]]; try discriminate.
-  destruct (Ascii.eqb v "v"); [|discriminate].
-  exists (take_until percent fmt), rest. reflexivity.
+  induction n as [|n IH]; intros fmt id r Hn H.
+  - destruct fmt; [discriminate|cbn [len] in Hn; lia].
+  - destruct fmt as [|c fmt]; [discriminate|]. cbn [sprintf_v] in H.
+    destruct (Ascii.eqb c percent) eqn:Ec.
+    + destruct fmt as [|v fmt']; [discriminate|].
+      destruct (Ascii.eqb v percent) eqn:Ev.
+      * destruct (sprintf_v fmt' id) as [r'|] eqn:E; [|discriminate].
+        destruct (IH fmt' id r') as [pre [suf Hs]]; [cbn [len] in Hn; lia|exact E|].
+        exists (percent :: pre), suf. intros id'. cbn [sprintf_v]. rewrite Ec, Ev, Hs. reflexivity.
+      * destruct (Ascii.eqb v "v") eqn:Evv; [|discriminate].
+        destruct (sprintf_lits fmt') as [l|] eqn:El; [|discriminate].
+        exists [], l. intros id'. cbn [sprintf_v]. rewrite Ec, Ev, Evv, El. reflexivity.
+    + destruct (sprintf_v fmt id) as [r'|] eqn:E; [|discriminate].
+      destruct (IH fmt id r') as [pre [suf Hs]]; [cbn [len] in Hn; lia|exact E|].
+      exists (c :: pre), suf. intros id'. cbn [sprintf_v]. rewrite Ec, Hs. reflexivity.
 Qed.
+
+Lemma sprintf_v_shape : forall fmt id r, sprintf_v fmt id = Some r ->
+  exists pre suf, (forall id', sprintf_v fmt id' = Some (pre ++ dec id' ++ suf)).
+Proof. intros fmt id r. apply (sprintf_v_shape_n (len fmt)). lia. Qed.
 
 Theorem target_paths_distinct : forall p id id' r,
   inject p id = Some r -> inject p id' = Some r -> id = id'.
@@ -77,10 +91,11 @@ Proof.
   destruct (sprintf_v_shape _ _ _ E) as [pre [suf Hs]]. rewrite Hs. discriminate.
 Qed.
 
-(** ** 4. target_path_spec: on the safe alphabet the target is dir/name_<id>ext *)
+(** ** 4. target_path_spec: for a path made of proper elements the target is dir/name_<id>ext.
+    (Until the repair F21 the two predicates below also excluded the percent sign.) *)
 
-Definition safe_char (c : ascii) : Prop := c <> slash /\ c <> percent.
-Definition plain_char (c : ascii) : Prop := c <> slash /\ c <> percent /\ c <> dot.
+Definition safe_char (c : ascii) : Prop := c <> slash.
+Definition plain_char (c : ascii) : Prop := c <> slash /\ c <> dot.
 
 (** a directory element: non-empty, safe characters, not "." or ".." *)
 Definition comp_ok (s : str) : Prop := s <> [] /\ Forall safe_char s /\ s <> [dot] /\ s <> [dot; dot].
@@ -138,13 +153,13 @@ Proof.
 Qed.
 
 Lemma forall_plain_no_dot : forall s, Forall plain_char s -> ~ In dot s.
-Proof. intros s H Hin. rewrite Forall_forall in H. destruct (H _ Hin) as [_ [_ Hd]]. now apply Hd. Qed.
+Proof. intros s H Hin. rewrite Forall_forall in H. destruct (H _ Hin) as [_ Hd]. now apply Hd. Qed.
 
 Lemma forall_safe_no_slash : forall s, Forall safe_char s -> ~ In slash s.
-Proof. intros s H Hin. rewrite Forall_forall in H. destruct (H _ Hin) as [Hs _]. now apply Hs. Qed.
+Proof. intros s H Hin. rewrite Forall_forall in H. now apply (H _ Hin). Qed.
 
 Lemma forall_plain_safe : forall s, Forall plain_char s -> Forall safe_char s.
-Proof. intros s H. eapply Forall_impl; [|exact H]. intros a [H1 [H2 _]]. now split. Qed.
+Proof. intros s H. eapply Forall_impl; [|exact H]. intros a [H1 _]. exact H1. Qed.
 
 Lemma path_ext_spec : forall n e, name_ok n e -> ext_ok e -> path_ext (n ++ e) = e.
 Proof.
@@ -270,7 +285,7 @@ Lemma dirstr_cons_head : forall c comps rest, comp_ok c ->
   exists x tl0, dirstr (c :: comps) ++ rest = x :: tl0 /\ x <> slash.
 Proof.
   intros c comps rest [Hne [Hs _]]. destruct c as [|x c]; [contradiction|].
-  exists x. eexists. split; [unfold dirstr; cbn; reflexivity|]. inversion Hs as [|? ? [Hx _] _]; subst. exact Hx.
+  exists x. eexists. split; [unfold dirstr; cbn; reflexivity|]. inversion Hs as [|? ? Hx _]; subst. exact Hx.
 Qed.
 
 Lemma rev_cons_rev : forall A (x : A) l, rev (x :: rev l) = l ++ [x].
@@ -310,37 +325,334 @@ Proof.
       exfalso. destruct (dirstr_cons_head c comps f Hc1) as [? [? [E3 _]]]. congruence.
 Qed.
 
-Lemma count_char_app : forall c a b, count_char c (a ++ b) = (count_char c a + count_char c b)%nat.
-Proof. induction a as [|x a IH]; intros b; cbn; [reflexivity|]. rewrite IH. lia. Qed.
+(** ** 4a. The percent signs of the given path are doubled first (F21): the escaped string goes through
+    path.Split / path.Ext / the slicing / path.Join (Clean) like the given one — no slash and no dot is touched —
+    and fmt.Sprintf turns every doubled percent sign back into one.  For EVERY path. *)
 
-Lemma count_char_zero : forall c s, ~ In c s -> count_char c s = 0%nat.
+Local Notation esc := escape_percent.
+
+Lemma esc_app : forall a b, esc (a ++ b) = esc a ++ esc b.
 Proof.
-  induction s as [|x s IH]; intros H; cbn; [reflexivity|].
-  destruct (Ascii.eqb_spec x c) as [->|_]; [exfalso; apply H; now left|]. apply IH. intros Hin; apply H; now right.
+  induction a as [|x a IH]; intros b; cbn [app escape_percent]; [reflexivity|].
+  rewrite IH. destruct (Ascii.eqb x percent); reflexivity.
 Qed.
 
-Lemma forall_safe_no_percent : forall s, Forall safe_char s -> ~ In percent s.
-Proof. intros s H Hin. rewrite Forall_forall in H. destruct (H _ Hin) as [_ Hp]. now apply Hp. Qed.
+Lemma esc_cons_other : forall c s, Ascii.eqb c percent = false -> esc (c :: s) = c :: esc s.
+Proof. intros c s H. cbn [escape_percent]. now rewrite H. Qed.
 
-Lemma ext_ok_no_percent : forall e, ext_ok e -> ~ In percent e.
+Lemma esc_rev : forall s, esc (rev s) = rev (esc s).
 Proof.
-  intros e [->|[e' [-> He']]]; [intros []|]. intros [H|H]; [discriminate|].
-  rewrite Forall_forall in He'. destruct (He' _ H) as [_ [Hp _]]. now apply Hp.
+  induction s as [|x s IH]; [reflexivity|]. cbn [rev]. rewrite esc_app, IH. cbn [escape_percent].
+  destruct (Ascii.eqb x percent); cbn [rev app]; [now rewrite <- app_assoc|reflexivity].
 Qed.
 
-Lemma render_dir_no_percent : forall rooted comps, Forall comp_ok comps -> ~ In percent (render_dir rooted comps).
+Lemma esc_nil_iff : forall s, esc s = [] <-> s = [].
 Proof.
-  intros rooted comps H. unfold render_dir. intros Hin. apply in_app_or in Hin. destruct Hin as [Hin|Hin].
-  - destruct rooted; [destruct Hin as [Hin|[]]; discriminate|destruct Hin].
-  - induction comps as [|c comps IH]; [destruct Hin|]. inversion H as [|? ? [_ [Hs _]] H']; subst.
-    cbn [map List.concat] in Hin. rewrite <- app_assoc in Hin. apply in_app_or in Hin. destruct Hin as [Hin|Hin].
-    + now apply forall_safe_no_percent in Hin.
-    + cbn in Hin. destruct Hin as [Hin|Hin]; [discriminate|]. now apply IH.
+  intros [|x s]; [tauto|]. cbn [escape_percent]. destruct (Ascii.eqb x percent); split; discriminate.
 Qed.
 
-Theorem target_path_spec : forall rooted comps n e id,
+Lemma esc_inj : forall a b, esc a = esc b -> a = b.
+Proof.
+  induction a as [|x a IH]; intros [|y b] H.
+  - reflexivity.
+  - symmetry in H. change (esc []) with (@nil ascii) in H. apply (proj1 (esc_nil_iff _)) in H. discriminate.
+  - change (esc []) with (@nil ascii) in H. apply (proj1 (esc_nil_iff _)) in H. discriminate.
+  - cbn [escape_percent] in H.
+    destruct (Ascii.eqb_spec x percent) as [->|Hx]; destruct (Ascii.eqb_spec y percent) as [->|Hy].
+    + injection H as H. f_equal. now apply IH.
+    + injection H as H1 H2. congruence.
+    + injection H as H1 H2. congruence.
+    + injection H as -> H. f_equal. now apply IH.
+Qed.
+
+Lemma str_eqb_esc : forall a b, str_eqb (esc a) (esc b) = str_eqb a b.
+Proof.
+  intros a b. destruct (str_eqb a b) eqn:E.
+  - apply str_eqb_eq in E. subst. apply str_eqb_refl.
+  - apply str_eqb_neq. apply str_eqb_neq in E. intros H. apply E. now apply esc_inj.
+Qed.
+
+Lemma esc_take_until : forall c s, Ascii.eqb percent c = false -> take_until c (esc s) = esc (take_until c s).
+Proof.
+  intros c s Hc. induction s as [|x s IH]; [reflexivity|].
+  cbn [escape_percent]. destruct (Ascii.eqb x percent) eqn:Ep.
+  - apply Ascii.eqb_eq in Ep. subst x. cbn [take_until]. rewrite Hc. cbn [escape_percent].
+    rewrite Ascii.eqb_refl. now rewrite IH.
+  - cbn [take_until]. destruct (Ascii.eqb x c); [reflexivity|]. cbn [escape_percent]. rewrite Ep. now rewrite IH.
+Qed.
+
+Lemma esc_drop_until : forall c s, Ascii.eqb percent c = false -> drop_until c (esc s) = esc (drop_until c s).
+Proof.
+  intros c s Hc. induction s as [|x s IH]; [reflexivity|].
+  cbn [escape_percent]. destruct (Ascii.eqb x percent) eqn:Ep.
+  - apply Ascii.eqb_eq in Ep. subst x. cbn [drop_until]. rewrite Hc. exact IH.
+  - cbn [drop_until]. destruct (Ascii.eqb x c); [|exact IH]. cbn [escape_percent]. now rewrite Ep.
+Qed.
+
+Lemma In_esc : forall c s, In c (esc s) <-> In c s.
+Proof.
+  intros c. induction s as [|x s IH]; [tauto|]. cbn [escape_percent].
+  destruct (Ascii.eqb_spec x percent) as [->|_]; cbn [In]; rewrite IH; tauto.
+Qed.
+
+(** path.Split *)
+Lemma path_split_esc : forall p, path_split (esc p) = (esc (fst (path_split p)), esc (snd (path_split p))).
+Proof.
+  intros p. unfold path_split. cbn [fst snd]. rewrite <- esc_rev.
+  rewrite esc_drop_until, esc_take_until by reflexivity. now rewrite !esc_rev.
+Qed.
+
+(** path.Ext *)
+Lemma path_ext_esc : forall f, path_ext (esc f) = esc (path_ext f).
+Proof.
+  intros f. unfold path_ext. cbv zeta. rewrite <- esc_rev.
+  rewrite esc_drop_until, esc_take_until by reflexivity.
+  destruct (drop_until dot (rev f)) as [|y l]; [reflexivity|].
+  rewrite (esc_cons_other dot) by reflexivity. rewrite esc_rev.
+  cbn [escape_percent]. destruct (Ascii.eqb y percent); reflexivity.
+Qed.
+
+Lemma take_until_no_c : forall c s, ~ In c (take_until c s).
+Proof.
+  induction s as [|x s IH]; cbn; [tauto|].
+  destruct (Ascii.eqb_spec x c) as [->|Hne]; cbn; [tauto|]. intros [H|H]; [now apply Hne|now apply IH].
+Qed.
+
+Lemma take_drop_until : forall c s, take_until c s ++ drop_until c s = s.
+Proof.
+  induction s as [|x s IH]; cbn; [reflexivity|].
+  destruct (Ascii.eqb x c); cbn; [reflexivity|]. now rewrite IH.
+Qed.
+
+Lemma drop_until_head : forall c s y l, drop_until c s = y :: l -> y = c.
+Proof.
+  induction s as [|x s IH]; intros y l H; [discriminate|]. cbn [drop_until] in H.
+  destruct (Ascii.eqb_spec x c) as [->|_]; [now injection H as -> _|]. now apply IH in H.
+Qed.
+
+Lemma path_split_file_no_slash : forall p, ~ In slash (snd (path_split p)).
+Proof. intros p. unfold path_split. cbn [snd]. intros H. apply in_rev in H. now apply take_until_no_c in H. Qed.
+
+(** the extension is a suffix of the name; file[:len(file)-len(ext)] is the rest *)
+Lemma path_ext_suffix : forall f, exists n, f = n ++ path_ext f.
+Proof.
+  intros f. unfold path_ext. cbv zeta. assert (E := take_drop_until dot (rev f)).
+  destruct (drop_until dot (rev f)) as [|y l] eqn:Ed.
+  - exists f. now rewrite app_nil_r.
+  - apply drop_until_head in Ed. subst y. exists (rev l).
+    assert (Hf : f = rev (take_until dot (rev f) ++ dot :: l)) by (rewrite E; symmetry; apply rev_involutive).
+    rewrite Hf at 1. rewrite rev_app_distr. cbn [rev]. now rewrite <- app_assoc.
+Qed.
+
+Lemma strip_ext_unique : forall f n, n ++ path_ext f = f -> strip_ext f = n.
+Proof.
+  intros f n H. unfold strip_ext. remember (path_ext f) as e eqn:He. clear He. subst f.
+  rewrite app_length. replace (len n + len e - len e)%nat with (len n + 0)%nat by lia.
+  rewrite firstn_app_2. cbn [firstn]. now rewrite app_nil_r.
+Qed.
+
+Lemma strip_ext_app : forall f, strip_ext f ++ path_ext f = f.
+Proof.
+  intros f. destruct (path_ext_suffix f) as [n Hn]. rewrite (strip_ext_unique f n); now symmetry.
+Qed.
+
+Lemma strip_ext_esc : forall f, strip_ext (esc f) = esc (strip_ext f).
+Proof.
+  intros f. apply strip_ext_unique. rewrite path_ext_esc, <- esc_app. now rewrite strip_ext_app.
+Qed.
+
+(** path.Join(dir, file) = path.Clean(dir + "/" + file): the last element is a proper file name (it contains the "_"
+    of the suffix), so Clean only works on the directory *)
+Definition clean_dir (a : str) : str :=
+  match a with
+  | [] => []
+  | c0 :: _ =>
+      (if Ascii.eqb c0 slash then [slash] else []) ++
+      dirstr (rev (fold_left (clean_step (Ascii.eqb c0 slash)) (split_on slash a) []))
+  end.
+
+Lemma path_join_file : forall a f, file_elem_ok f -> path_join2 a f = clean_dir a ++ f.
+Proof.
+  intros a f Hf. assert (Hf' := Hf). destruct Hf' as [Hf1 [Hf2 [Hf3 Hf4]]].
+  destruct f as [|y f'] eqn:Ef; [contradiction|]. rewrite <- Ef in *.
+  destruct a as [|c0 a'] eqn:Ea.
+  - cbn [clean_dir app]. unfold path_join2. rewrite Ef. rewrite <- Ef.
+    rewrite (path_clean_eq f y f') by assumption.
+    assert (Hy : Ascii.eqb y slash = false).
+    { apply Ascii.eqb_neq. intros ->. apply Hf2. rewrite Ef. now left. }
+    rewrite Hy. rewrite split_on_noc by assumption. cbn [fold_left]. rewrite clean_step_file by assumption.
+    cbn [rev app join_with]. now rewrite Ef.
+  - rewrite <- Ea. unfold path_join2. rewrite Ea, Ef. rewrite <- Ea, <- Ef.
+    rewrite (path_clean_eq (a ++ slash :: f) c0 (a' ++ slash :: f)) by (now rewrite Ea).
+    rewrite split_on_app, (split_on_noc slash f) by assumption.
+    rewrite fold_left_app. cbn [fold_left]. rewrite clean_step_file by assumption.
+    cbn [rev]. rewrite join_with_render by assumption.
+    unfold clean_dir. rewrite Ea. rewrite <- Ea. fold (dirstr (rev (fold_left (clean_step (Ascii.eqb c0 slash)) (split_on slash a) []))).
+    destruct (Ascii.eqb c0 slash); [reflexivity|]. cbn [app].
+    destruct (dirstr (rev (fold_left (clean_step false) (split_on slash a) [])) ++ f) eqn:E2; [|reflexivity].
+    exfalso. apply app_eq_nil in E2. destruct E2 as [_ E2]. contradiction.
+Qed.
+
+Lemma split_on_esc : forall s, split_on slash (esc s) = map esc (split_on slash s).
+Proof.
+  induction s as [|x s IH]; [reflexivity|]. cbn [escape_percent].
+  assert (Hne := split_on_nonempty slash s).
+  destruct (Ascii.eqb x percent) eqn:Ep.
+  - apply Ascii.eqb_eq in Ep. subst x. cbn [split_on]. replace (Ascii.eqb percent slash) with false by reflexivity.
+    rewrite IH. destruct (split_on slash s) as [|h t]; [contradiction|]. cbn [map escape_percent].
+    now rewrite Ascii.eqb_refl.
+  - cbn [split_on]. destruct (Ascii.eqb x slash); [cbn [map escape_percent]; now rewrite IH|].
+    rewrite IH. destruct (split_on slash s) as [|h t]; [contradiction|]. cbn [map escape_percent]. now rewrite Ep.
+Qed.
+
+Lemma clean_step_esc : forall r st comp,
+  clean_step r (map esc st) (esc comp) = map esc (clean_step r st comp).
+Proof.
+  intros r st comp. unfold clean_step.
+  change (@nil ascii) with (esc []) at 1. change [dot] with (esc [dot]) at 1. change [dot; dot] with (esc [dot; dot]) at 1.
+  rewrite !str_eqb_esc.
+  destruct (str_eqb comp [] || str_eqb comp [dot]); [reflexivity|].
+  destruct (str_eqb comp [dot; dot]); [|reflexivity].
+  destruct st as [|top rest]; [destruct r; reflexivity|]. cbn [map].
+  replace (str_eqb (esc top) [dot; dot]) with (str_eqb top [dot; dot])
+    by (symmetry; exact (str_eqb_esc top [dot; dot])).
+  destruct (str_eqb top [dot; dot]); reflexivity.
+Qed.
+
+Lemma clean_fold_esc : forall r l st,
+  fold_left (clean_step r) (map esc l) (map esc st) = map esc (fold_left (clean_step r) l st).
+Proof.
+  induction l as [|c l IH]; intros st; [reflexivity|]. cbn [map fold_left]. now rewrite clean_step_esc, IH.
+Qed.
+
+Lemma dirstr_esc : forall l, dirstr (map esc l) = esc (dirstr l).
+Proof.
+  induction l as [|c l IH]; [reflexivity|]. unfold dirstr in *. cbn [map List.concat].
+  rewrite IH, !esc_app. reflexivity.
+Qed.
+
+Lemma clean_dir_esc : forall a, clean_dir (esc a) = esc (clean_dir a).
+Proof.
+  intros [|c0 a']; [reflexivity|].
+  assert (Hhd : exists t, esc (c0 :: a') = (if Ascii.eqb c0 percent then percent else c0) :: t).
+  { cbn [escape_percent]. destruct (Ascii.eqb c0 percent); eexists; reflexivity. }
+  destruct Hhd as [t Ht].
+  assert (Hr : Ascii.eqb (if Ascii.eqb c0 percent then percent else c0) slash = Ascii.eqb c0 slash).
+  { destruct (Ascii.eqb_spec c0 percent) as [->|_]; reflexivity. }
+  unfold clean_dir at 1. rewrite Ht, Hr, <- Ht.
+  rewrite split_on_esc. change (@nil str) with (map esc []) at 1. rewrite clean_fold_esc, <- map_rev, dirstr_esc.
+  unfold clean_dir. rewrite esc_app. destruct (Ascii.eqb c0 slash); reflexivity.
+Qed.
+
+(** fmt.Sprintf on an escaped text: every doubled percent sign is printed as one *)
+Lemma sprintf_lits_esc : forall s, sprintf_lits (esc s) = Some s.
+Proof.
+  induction s as [|x s IH]; [reflexivity|]. cbn [escape_percent].
+  destruct (Ascii.eqb x percent) eqn:Ep.
+  - apply Ascii.eqb_eq in Ep. subst x. cbn [sprintf_lits]. rewrite Ascii.eqb_refl, IH. reflexivity.
+  - cbn [sprintf_lits]. rewrite Ep, IH. reflexivity.
+Qed.
+
+Lemma sprintf_v_esc : forall a b id,
+  sprintf_v (esc a ++ percent :: "v"%char :: esc b) id = Some (a ++ dec id ++ b).
+Proof.
+  induction a as [|x a IH]; intros b id.
+  - cbn [escape_percent app sprintf_v]. rewrite Ascii.eqb_refl.
+    replace (Ascii.eqb "v" percent) with false by reflexivity. rewrite Ascii.eqb_refl.
+    rewrite sprintf_lits_esc. reflexivity.
+  - cbn [escape_percent]. destruct (Ascii.eqb x percent) eqn:Ep.
+    + apply Ascii.eqb_eq in Ep. subst x. cbn [app sprintf_v]. rewrite Ascii.eqb_refl, IH. reflexivity.
+    + cbn [app sprintf_v]. rewrite Ep, IH. reflexivity.
+Qed.
+
+(** the decimal digits of an id contain no slash *)
+Lemma string_of_uint_no_slash : forall d, ~ In slash (list_ascii_of_string (NilEmpty.string_of_uint d)).
+Proof.
+  induction d as [|d IH|d IH|d IH|d IH|d IH|d IH|d IH|d IH|d IH|d IH];
+    cbn [NilEmpty.string_of_uint list_ascii_of_string In]; try tauto;
+    intros [H|H]; try discriminate; now apply IH.
+Qed.
+
+Lemma dec_no_slash : forall id, ~ In slash (dec id).
+Proof.
+  intros id. unfold dec, s_.
+  assert (U : forall d, ~ In slash (list_ascii_of_string (NilZero.string_of_uint d))).
+  { intros d. unfold NilZero.string_of_uint.
+    destruct d; try apply string_of_uint_no_slash. cbn. intros [H|[]]. discriminate. }
+  destruct (Z.to_int id) as [d|d]; cbn [NilZero.string_of_int].
+  - apply U.
+  - cbn [list_ascii_of_string In]. intros [H|H]; [discriminate|]. now apply U in H.
+Qed.
+
+Lemma suffixed_file_elem_ok : forall n m e, ~ In slash n -> ~ In slash m -> ~ In slash e ->
+  file_elem_ok (n ++ "_"%char :: m ++ e).
+Proof.
+  intros n m e Hn Hm He.
+  assert (Hu : In "_"%char (n ++ "_"%char :: m ++ e)) by (apply in_or_app; right; now left).
+  unfold file_elem_ok. split; [|split; [|split]].
+  - intros E. now rewrite E in Hu.
+  - intros Hin. apply in_app_or in Hin. destruct Hin as [Hin|[Hin|Hin]]; [now apply Hn|discriminate|].
+    apply in_app_or in Hin. destruct Hin as [Hin|Hin]; [now apply Hm|now apply He].
+  - intros E. rewrite E in Hu. cbn in Hu. intuition discriminate.
+  - intros E. rewrite E in Hu. cbn in Hu. intuition discriminate.
+Qed.
+
+(** the format injectSuffixIntoPath returns, for EVERY path: the cleaned directory and the name, escaped, the verb, the
+    escaped extension *)
+Theorem inject_format_shape : forall p,
+  inject_format p =
+  esc (clean_dir (fst (path_split p)) ++ strip_ext (snd (path_split p)) ++ s_ "_") ++ s_ "%v" ++ esc (path_ext (snd (path_split p))).
+Proof.
+  intros p. unfold inject_format, inject_format_raw. rewrite path_split_esc.
+  assert (Hns := path_split_file_no_slash p).
+  destruct (path_split p) as [dir file]. cbn [fst snd] in *.
+  rewrite path_ext_esc, strip_ext_esc.
+  assert (Hn : ~ In slash (strip_ext file)).
+  { intros H. apply Hns. rewrite <- (strip_ext_app file). apply in_or_app. now left. }
+  assert (He : ~ In slash (path_ext file)).
+  { intros H. apply Hns. rewrite <- (strip_ext_app file). apply in_or_app. now right. }
+  change (s_ "_%v") with ("_"%char :: s_ "%v"). cbn [app].
+  rewrite path_join_file.
+  2:{ apply suffixed_file_elem_ok; [now rewrite In_esc| |now rewrite In_esc]. cbn. intuition discriminate. }
+  rewrite clean_dir_esc. rewrite !esc_app. change (esc (s_ "_")) with (s_ "_"). cbn [s_ list_ascii_of_string app].
+  now rewrite <- !app_assoc.
+Qed.
+
+(** ... and fmt.Sprintf of it with the id is the given path with _<id> inserted before the extension: the escaped path
+    is ALWAYS inside the model of fmt.Sprintf, whatever characters the target path has *)
+Theorem inject_spec : forall p id, inject p id = Some (target_path p id).
+Proof.
+  intros p id. unfold inject. rewrite inject_format_shape.
+  change (s_ "%v") with [percent; "v"%char]. cbn [app].
+  rewrite sprintf_v_esc. f_equal. unfold target_path.
+  assert (Hns := path_split_file_no_slash p).
+  destruct (path_split p) as [dir file]. cbn [fst snd] in *.
+  assert (Hn : ~ In slash (strip_ext file)).
+  { intros H. apply Hns. rewrite <- (strip_ext_app file). apply in_or_app. now left. }
+  assert (He : ~ In slash (path_ext file)).
+  { intros H. apply Hns. rewrite <- (strip_ext_app file). apply in_or_app. now right. }
+  change (s_ "_") with ["_"%char]. cbn [app].
+  rewrite path_join_file by (apply suffixed_file_elem_ok; [assumption|apply dec_no_slash|assumption]).
+  now rewrite <- !app_assoc.
+Qed.
+
+Corollary inject_total : forall p id, inject p id <> None.
+Proof. intros p id. rewrite inject_spec. discriminate. Qed.
+
+(** before the repair (injectSuffixIntoPath without the escaping) a path was inside the model only without '%':
+    any percent sign that is not the first of "%%" or of the one "%v" leaves it *)
+Lemma sprintf_lits_no_verb : forall s, ~ In percent s -> sprintf_lits s = Some s.
+Proof.
+  induction s as [|x s IH]; intros H; [reflexivity|]. cbn [sprintf_lits].
+  destruct (Ascii.eqb_spec x percent) as [->|_]; [exfalso; apply H; now left|].
+  rewrite IH; [reflexivity|]. intros Hin; apply H; now right.
+Qed.
+
+(** ** 4b. target_path_spec *)
+
+Theorem target_path_plain : forall rooted comps n e id,
   Forall comp_ok comps -> name_ok n e -> ext_ok e ->
-  inject (render_dir rooted comps ++ n ++ e) id = Some (render_dir rooted comps ++ n ++ s_ "_" ++ dec id ++ e).
+  target_path (render_dir rooted comps ++ n ++ e) id = render_dir rooted comps ++ n ++ s_ "_" ++ dec id ++ e.
 Proof.
   intros rooted comps n e id Hc Hn He.
   assert (Hns : ~ In slash (n ++ e)).
@@ -353,36 +665,21 @@ Proof.
     - right. rewrite map_app, concat_app. cbn [map List.concat]. rewrite app_nil_r.
       exists ((if rooted then [slash] else []) ++ List.concat (map (fun c0 => c0 ++ [slash]) comps) ++ c).
       now rewrite <- !app_assoc. }
-  unfold inject, inject_format.
+  unfold target_path.
   rewrite path_split_spec by assumption.
   rewrite path_ext_spec, strip_ext_spec by assumption.
-  set (f := n ++ s_ "_%v" ++ e).
-  assert (Hf1 : f <> []) by (unfold f; destruct n; discriminate).
-  assert (Hf2 : ~ In slash f).
-  { unfold f. intros Hin. apply in_app_fmt in Hin. destruct Hin as [Hin|[Hin|[Hin|[Hin|Hin]]]]; try discriminate.
-    - destruct Hn as [Hn _]. now apply forall_safe_no_slash in Hin.
-    - now apply ext_ok_no_slash in Hin. }
-  assert (Hf3 : f <> [dot] /\ f <> [dot; dot]).
-  { assert (Hu : In "_"%char f) by (unfold f; apply in_or_app; right; now left).
-    split; intros E; rewrite E in Hu; cbn in Hu; intuition discriminate. }
-  rewrite clean_join_spec by (unfold file_elem_ok; tauto).
-  (* Sprintf on a format with exactly one '%' *)
-  unfold sprintf_v.
-  assert (Hcount : count_char percent (render_dir rooted comps ++ f) = 1%nat).
-  { unfold f. rewrite !count_char_app. rewrite (count_char_zero percent (render_dir rooted comps)) by now apply render_dir_no_percent.
-    destruct Hn as [Hn _]. rewrite (count_char_zero percent n) by now apply forall_safe_no_percent.
-    rewrite (count_char_zero percent e) by now apply ext_ok_no_percent. reflexivity. }
-  rewrite Hcount. cbn [Nat.eqb negb].
-  assert (Hpre : ~ In percent (render_dir rooted comps ++ n ++ s_ "_")).
-  { intros Hin. apply in_app_or in Hin. destruct Hin as [Hin|Hin]; [now apply render_dir_no_percent in Hin|].
-    apply in_app_or in Hin. destruct Hin as [Hin|Hin].
-    - destruct Hn as [Hn _]. now apply forall_safe_no_percent in Hin.
-    - cbn in Hin. destruct Hin as [Hin|[]]. discriminate. }
-  replace (render_dir rooted comps ++ f) with ((render_dir rooted comps ++ n ++ s_ "_") ++ percent :: "v"%char :: e).
-  2:{ unfold f. rewrite <- !app_assoc. reflexivity. }
-  rewrite drop_until_app_noc, take_until_app_noc by assumption.
-  cbn [Ascii.eqb Bool.eqb]. rewrite <- !app_assoc. reflexivity.
+  change (s_ "_") with ["_"%char]. cbn [app].
+  rewrite clean_join_spec; [reflexivity|assumption|].
+  apply suffixed_file_elem_ok.
+  - destruct Hn as [Hn _]. now apply forall_safe_no_slash.
+  - apply dec_no_slash.
+  - now apply ext_ok_no_slash.
 Qed.
+
+Theorem target_path_spec : forall rooted comps n e id,
+  Forall comp_ok comps -> name_ok n e -> ext_ok e ->
+  inject (render_dir rooted comps ++ n ++ e) id = Some (render_dir rooted comps ++ n ++ s_ "_" ++ dec id ++ e).
+Proof. intros rooted comps n e id Hc Hn He. rewrite inject_spec. f_equal. now apply target_path_plain. Qed.
 
 (** ** 5. Monadic plumbing *)
 
@@ -715,6 +1012,48 @@ Section Composition.
     rewrite Hinj in Hp1, Hp2. injection Hp1 as <-. injection Hp2 as <-.
     unfold start_content in Hf1, Hf2. rewrite Ho in Hf1, Hf2. rewrite Hf1 in Hf2. injection Hf2 as <-.
     rewrite Hl1, Hl2. split; [reflexivity|discriminate].
+  Qed.
+
+  (** *** no run ends because of the characters of the target path (F21) *)
+  Lemma lift_not_unsafe : forall A (r : res A), lift r <> CErr UnsafePath.
+  Proof. intros A [a|e]; discriminate. Qed.
+
+  Lemma cbind_not_unsafe : forall A B (r : cres A) (f : A -> cres B),
+    r <> CErr UnsafePath -> (forall a, f a <> CErr UnsafePath) -> cbind r f <> CErr UnsafePath.
+  Proof.
+    intros A B [a|e] f Hr Hf; cbn [cbind]; [apply Hf|].
+    intros H. apply Hr. injection H as ->. reflexivity.
+  Qed.
+
+  Lemma cmapM_not_unsafe : forall A B (f : A -> cres B) l,
+    (forall a, f a <> CErr UnsafePath) -> cmapM f l <> CErr UnsafePath.
+  Proof.
+    intros A B f l Hf. induction l as [|a l IH]; cbn [cmapM]; [discriminate|].
+    apply cbind_not_unsafe; [apply Hf|]. intros b. apply cbind_not_unsafe; [exact IH|discriminate].
+  Qed.
+
+  Lemma cfoldM_not_unsafe : forall A S (f : S -> A -> cres S) l s,
+    (forall s a, f s a <> CErr UnsafePath) -> cfoldM f l s <> CErr UnsafePath.
+  Proof.
+    intros A S f l. induction l as [|a l IH]; intros s Hf; cbn [cfoldM]; [discriminate|].
+    apply cbind_not_unsafe; [apply Hf|]. intros s'. now apply IH.
+  Qed.
+
+  Theorem cli_run_never_unsafe_path : forall (a : args) fs0, cli_run a fs0 <> CErr UnsafePath.
+  Proof.
+    intros a fs0. unfold Cli.Model.cli_run.
+    destruct (a_tms_ok a); cbn [negb]; [|discriminate].
+    destruct (a_source a) as [src|]; [|discriminate].
+    apply cbind_not_unsafe.
+    - apply cfoldM_not_unsafe. intros [fs acc] id. unfold init_target. rewrite inject_spec. discriminate.
+    - intros [fs1 tgts0]. apply cbind_not_unsafe.
+      + apply cmapM_not_unsafe. intros [[id path] d]. unfold create_in.
+        apply cbind_not_unsafe; [apply lift_not_unsafe|discriminate].
+      + intros tgts1. apply cbind_not_unsafe; [|discriminate].
+        apply cfoldM_not_unsafe. intros tgts tf. unfold Cli.Model.run_table.
+        destruct (pipeline (snap (snap_config_of (a_flags a))) (distinct_ids (a_ids a)) (snd tf)); [|discriminate].
+        apply cmapM_not_unsafe. intros [[id path] d].
+        apply cbind_not_unsafe; [apply lift_not_unsafe|discriminate].
   Qed.
 End Composition.
 
